@@ -214,6 +214,19 @@ def indexed (s : State) : List Int := AMap.keys s.base.docwords
 /-- `docids()` (key set) -/
 def docids (s : State) : List Int := LSet.union s.notIndexed (indexed s)
 
+/-- `document_repr(docid, default)`: the words of the document (joined with blanks by the code);
+`none` = the default (`KeyError` from `_docwords[docid]` or `get_word`) -/
+def documentRepr (s : State) (d : Int) : Option (List Str) :=
+  match getWords s.base d with
+  | none => none
+  | some wids => wids.mapM (Lex.getWord s.base.lex)
+
+/-- `indexed_count()`, `not_indexed_count()`, `docids_count()`, `word_count()` -/
+def indexedCount (s : State) : Int := s.base.indexedCount
+def notIndexedCount (s : State) : Nat := s.notIndexed.length
+def docidsCount (s : State) : Nat := (docids s).length
+def wordCount (s : State) : Int := s.base.wordCount
+
 /-- the lexicon as the query parser sees it: `parseTerms(token)`, `isGlob(word)` -/
 def lexOf (cfg : Cfg) : QP.Lex :=
   { parseTerms := fun t => Lex.parseTerms cfg [t], isGlob := Lex.isGlob }
